@@ -34,8 +34,8 @@ Closes == {"match", "none", "wrong"}
 CloseOf(o, c) == CASE c = "none" -> <<>>
                    [] c = "match" -> <<W(IF o = "{{" THEN "}}" ELSE IF o = "{#" THEN "#}" ELSE "%}")>>
                    [] c = "wrong" -> <<W(IF o = "{{" THEN "%}" ELSE "}}")>>
-TokCases == {[fam |-> "tok", o |-> o, ts |-> ts, c |-> c, tail |-> tl] : o \in Opens, ts \in Seqs(AllTok, SeqLen) \cup Seqs(SmallTok, SeqLenSmall), c \in Closes,
-                                                                         tl \in {"none", "endif", "endfor"}}
+Tails == {"none", "endif", "endfor"}
+TokCasesOf(o, c, tl) == {[fam |-> "tok", o |-> o, ts |-> ts, c |-> c, tail |-> tl] : ts \in Seqs(AllTok, SeqLen) \cup Seqs(SmallTok, SeqLenSmall)}
 TokSource(c) == <<W("a ")>> \o <<W(c.o), W(" ")>> \o Flatten([i \in 1..Len(c.ts) |-> <<W(c.ts[i]), W(" ")>>]) \o CloseOf(c.o, c.c) \o <<W(" b")>>
                 \o (CASE c.tail = "endif" -> <<W("{% endif %}")>> [] c.tail = "endfor" -> <<W("{% endfor %}c")>> [] OTHER -> <<>>)
 TokRelevant(c) == c.tail = "none" \/ (Len(c.ts) >= 1 /\ c.ts[1] \in {"if", "for", "elseif", "else", "block", "macro"} /\ c.c = "match")
@@ -111,11 +111,13 @@ CaseOf(c) ==
             runs |-> {[label |-> "dec", tp |-> ("main" :> <<>>), xcalls |-> [id \in {} |-> 0], probe |-> TRUE, decode |-> c.bytes]}, expect |-> AnyExpect]
 
 Fams == {"tok", "shape", "dec"}
-Init == cs \in {[part |-> f, o |-> o] : f \in Fams, o \in Opens}
+\* partitions (expanded in parallel by TLC's workers; also keeps every set below TLC's size limit)
+Init == cs \in {[part |-> "tok", o |-> o, c |-> c, tl |-> tl] : o \in Opens, c \in Closes, tl \in Tails}
+             \cup {[part |-> "shape", o |-> "", c |-> "", tl |-> ""], [part |-> "dec", o |-> "", c |-> "", tl |-> ""]}
 Next == "part" \in DOMAIN cs /\
-        cs' \in (CASE cs.part = "tok" -> {c \in TokCases : c.o = cs.o /\ TokRelevant(c)}
-                   [] cs.part = "shape" -> IF cs.o = "{{" THEN ShapeCases ELSE {}
-                   [] cs.part = "dec" -> IF cs.o = "{{" THEN DecCases ELSE {})
+        cs' \in (CASE cs.part = "tok" -> {c \in TokCasesOf(cs.o, cs.c, cs.tl) : TokRelevant(c)}
+                   [] cs.part = "shape" -> ShapeCases
+                   [] cs.part = "dec" -> DecCases)
 Spec == Init /\ [][Next]_cs
 IsCase == "fam" \in DOMAIN cs
 Emit == IsCase => PrintT(ToJson(CaseOf(cs)))
